@@ -264,24 +264,24 @@ def _w_c0910(task):
 
 
 def _c10_cause(m, b1, b2, key):
-    """independent attribution of a shared key to the one recorded cause (KF-flat-stringmap-single-scalar): a flat string
-    keymap hands a lone fast-typed positional to str() bare -- not inside a tuple, where its repr would be used -- so the
-    two bindings differ only in a one-element '*' whose elements have the same str(), and the key is that string"""
+    """independent attribution of a shared key to the one recorded cause (KF-flat-stringmap-lone-scalar): a flat string
+    keymap hands a lone fast-typed positional to str() bare -- not inside a tuple, where its repr would be used -- so a
+    lone *string* argument loses its quotes and reads like whatever it spells: f('1') like f(1), f('(1, 1)') like f(1, 1).
+    Recognised from the bindings alone: one of the two calls consists of exactly one positional, a str, nothing else that
+    enters the key varies, and the shared key is that very string"""
     try:
         if type(m).__name__ != 'stringmap' or not m.flat or m.typed or getattr(m, 'outer', None):
             return 'other'
         d1, d2 = dict(b1), dict(b2)
         if set(d1) != set(d2) or '*' not in d1:
             return 'other'
-        if any(d1[k] != d2[k] or type(d1[k]) is not type(d2[k]) for k in d1 if k != '*'):
+        if any(d1[k] != d2[k] or type(d1[k]) is not type(d2[k]) for k in d1 if k not in ('*', '**')):
             return 'other'
-        s1, s2 = d1['*'], d2['*']
-        if len(s1) != 1 or len(s2) != 1 or dict(d1.get('**', ())):
-            return 'other'
-        x, y = s1[0], s2[0]
-        fast = (int, str, bytes, frozenset, type(None))
-        if type(x) in fast and type(y) in fast and str(x) == str(y) and (key is None or freeze(key) == freeze(str(x)) or isinstance(key, bytes)):
-            return 'str-of-lone-scalar'
+        for d in (d1, d2):
+            star = d['*']
+            if len(star) == 1 and type(star[0]) is str and not dict(d.get('**', ())):
+                if key is None or isinstance(key, bytes) or key == star[0]:
+                    return 'str-of-lone-scalar'
     except Exception:
         pass
     return 'other'
